@@ -219,4 +219,93 @@ theorem dropWhile_le_eq_filter_lt {β : Type} (m : Bytes) (l : List (Bytes × β
           have := bytesLe_trans _ _ _ (h.1 y hy) hb
           rw [hx'] at this; exact absurd this (by simp)
 
+/-! ## insertion sort of parts by part number -/
+
+theorem insPart_mem {β : Type} (x : Int × β) (l : List (Int × β)) (y : Int × β) :
+    y ∈ insPart x l ↔ y = x ∨ y ∈ l := by
+  induction l with
+  | nil => simp [insPart]
+  | cons z t ih =>
+    unfold insPart
+    split
+    · simp only [List.mem_cons, ih]
+      constructor
+      · rintro (h | h | h)
+        · exact Or.inr (Or.inl h)
+        · exact Or.inl h
+        · exact Or.inr (Or.inr h)
+      · rintro (h | h | h)
+        · exact Or.inr (Or.inl h)
+        · exact Or.inl h
+        · exact Or.inr (Or.inr h)
+    · simp
+
+/-- inserting a part whose number is not in the list keeps it strictly ascending -/
+theorem insPart_strict {β : Type} (x : Int × β) (l : List (Int × β)) (h : l.Pairwise fun a b => a.1 < b.1)
+    (hx : ∀ y ∈ l, y.1 ≠ x.1) : (insPart x l).Pairwise fun a b => a.1 < b.1 := by
+  induction l with
+  | nil => simp [insPart]
+  | cons z t ih =>
+    rw [List.pairwise_cons] at h
+    have hzx : z.1 ≠ x.1 := hx z (by simp)
+    unfold insPart
+    split
+    · rename_i hle
+      rw [List.pairwise_cons]
+      refine ⟨?_, ih h.2 fun y hy => hx y (List.mem_cons_of_mem _ hy)⟩
+      intro y hy
+      rcases (insPart_mem x t y).mp hy with hy | hy
+      · subst hy; omega
+      · exact h.1 y hy
+    · rename_i hle
+      rw [List.pairwise_cons]
+      refine ⟨?_, List.pairwise_cons.mpr h⟩
+      intro y hy
+      simp only [List.mem_cons] at hy
+      rcases hy with hy | hy
+      · subst hy; omega
+      · have := h.1 y hy; omega
+
+theorem foldl_insPart_mem {β : Type} (l acc : List (Int × β)) (y : Int × β) :
+    y ∈ l.foldl (fun acc x => insPart x acc) acc ↔ y ∈ l ∨ y ∈ acc := by
+  induction l generalizing acc with
+  | nil => simp
+  | cons x t ih =>
+    simp only [List.foldl_cons, ih, insPart_mem, List.mem_cons]
+    constructor
+    · rintro (h | h | h)
+      · exact Or.inl (Or.inr h)
+      · exact Or.inl (Or.inl h)
+      · exact Or.inr h
+    · rintro ((h | h) | h)
+      · exact Or.inr (Or.inl h)
+      · exact Or.inl h
+      · exact Or.inr (Or.inr h)
+
+/-- `sortParts` is a rearrangement -/
+theorem sortParts_mem {β : Type} (l : List (Int × β)) (y : Int × β) : y ∈ sortParts l ↔ y ∈ l := by
+  unfold sortParts
+  rw [foldl_insPart_mem]; simp
+
+theorem foldl_insPart_strict {β : Type} (l acc : List (Int × β)) (hacc : acc.Pairwise fun a b => a.1 < b.1)
+    (hnd : keysNodup l) (hdis : ∀ x ∈ l, ∀ y ∈ acc, y.1 ≠ x.1) :
+    (l.foldl (fun acc x => insPart x acc) acc).Pairwise fun a b => a.1 < b.1 := by
+  induction l generalizing acc with
+  | nil => exact hacc
+  | cons x t ih =>
+    unfold keysNodup at hnd
+    rw [List.map_cons, List.nodup_cons] at hnd
+    refine ih _ (insPart_strict x acc hacc (hdis x (by simp))) hnd.2 ?_
+    intro x' hx' y hy
+    rcases (insPart_mem x acc y).mp hy with hy | hy
+    · subst hy
+      intro heq
+      exact hnd.1 (heq ▸ List.mem_map_of_mem (f := (·.1)) hx')
+    · exact hdis x' (List.mem_cons_of_mem _ hx') y hy
+
+/-- parts with distinct numbers come out of `sortParts` in strictly ascending part-number order -/
+theorem sortParts_strict {β : Type} (l : List (Int × β)) (hnd : keysNodup l) :
+    (sortParts l).Pairwise fun a b => a.1 < b.1 :=
+  foldl_insPart_strict l [] List.Pairwise.nil hnd (by simp)
+
 end S3V.FsStore
